@@ -944,5 +944,9 @@ func generate(seed int64, n int) []*Case {
 		res = append(res, testCase(r, n+i))
 	}
 	res = append(res, sweepCases(n+n*5/2)...)
+	// modelled stream 2: the forwarding endpoints (labels, series, Tempo tags / search, TraceQL), 2n/3 cases
+	for i := 0; i < n*2/3; i++ {
+		res = append(res, fwdCase(r, n+n*5/2+1000+i))
+	}
 	return res
 }
